@@ -80,7 +80,9 @@ func (g *Gen) dateCriteria() *baskettypes.DateCriteria {
 		}
 		return &baskettypes.DateCriteria{MinStartDate: ts}
 	case 2:
-		days := []int64{1, 365, 3650, 365 * 50, 365 * 200}[g.R.Intn(5)]
+		// up to 600 years: beyond ~292 years the window no longer fits a Go Duration (it is stored as
+		// seconds, which do) — whatever the chain stores must be what the message said
+		days := []int64{1, 365, 3650, 365 * 50, 365 * 200, 365 * 300, 365 * 600}[g.R.Intn(7)]
 		secs := days * 86400
 		if g.hostile() && g.chance(0.3) {
 			secs = 3600
@@ -731,6 +733,32 @@ func (g *Gen) genUpdateSell() *eng.Tx {
 	}
 	seller := obs.Addr(o.Seller)
 	m := &markettypes.MsgUpdateSellOrders{Seller: g.owner(seller)}
+	if g.chance(0.12) {
+		// own order, the same own order again, then SOMEONE ELSE's order (every entry must be checked for
+		// ownership, wherever it stands and whatever precedes it)
+		var foreign *marketapi.SellOrder
+		for _, x := range g.V.OrderList {
+			if obs.Addr(x.Seller) != seller && (foreign == nil || g.chance(0.3)) {
+				foreign = x
+			}
+		}
+		if foreign != nil {
+			up := func(x *marketapi.SellOrder) *markettypes.MsgUpdateSellOrders_Update {
+				den := "stake"
+				if mk := g.V.Markets[x.MarketId]; mk != nil {
+					den = mk.BankDenom
+				}
+				c := sdk.NewInt64Coin(den, int64(1+g.R.Intn(1000)))
+				return &markettypes.MsgUpdateSellOrders_Update{SellOrderId: x.Id, NewQuantity: x.Quantity, NewAskPrice: &c, DisableAutoRetire: x.DisableAutoRetire}
+			}
+			m.Seller = seller
+			m.Updates = []*markettypes.MsgUpdateSellOrders_Update{up(o), up(o), up(foreign)}
+			if g.chance(0.3) {
+				m.Updates = append(m.Updates, up(foreign))
+			}
+			return tx(m)
+		}
+	}
 	n := 1 + g.R.Intn(2)
 	for i := 0; i < n; i++ {
 		q := ref.MustDec(o.Quantity)
